@@ -45,6 +45,7 @@ void generate(sim::Rng &r, uint64_t seed, const std::string &tier, sim::Plan &p)
     for (int i = 0; i < n; ++i) {
       sim::Op op;
       unsigned x = (unsigned)r.below(100);
+      if (proto == 1 && r.chance(200)) { sim::Op ws; ws.kind = "ws"; ws.a = {(long)r.below(5)}; p.ops.push_back(ws); }     // raw stream: blanks between two JSON texts
       if (!hostile || x < 55) { op.kind = "msg"; op.a = {(long)r.below(4), r.range(1, 1000), (long)(r.next() & 0xffffff)}; }
       else if (x < 70) { op.kind = "raw"; op.a = {(long)(r.next() & 0xffffff), r.range(1, 40)}; }
       else if (x < 85) { op.kind = "tricky"; op.a = {(long)r.below(64)}; }
@@ -167,6 +168,11 @@ void run_framing(const sim::Plan &plan) {
         else { enc->sendRequest(0, method, payload); expect.push_back("REQ 0 " + method + " " + payload.dump()); }
         frames.push_back(last); wellformed.push_back(true);
         sim::relevant();
+      } else if (op.kind == "ws" && kind == 1) {
+        // white space between JSON texts is not a message and must not disturb the ones around it
+        static const char *const WS[] = {"\n", "\r\n", " ", " \t ", "\n\n  "};
+        frames.push_back(WS[((op.arg(0) % 5) + 5) % 5]); wellformed.push_back(true);
+        sim::probe("blanks_between_texts");
       } else if (op.kind == "raw" && hostile) {
         sim::Rng rr((uint64_t)op.arg(0) + 9);
         static const char alpha[] = "{}[]\"\\,:0a \n\x80\xff\x00t";
